@@ -340,6 +340,7 @@ class ClauseCtx:
         self.names = names or {}
         self.old_state = old_state if old_state is not None else frame.entry
         self.result = result
+        self.pre_state = None
 
     def fresh_id(self):
         return self.eng.fresh_id()
@@ -359,6 +360,20 @@ class ClauseCtx:
 
     def lookup(self, name, old):
         e = self.eng
+        if old == 'pre':
+            if self.pre_state is None:
+                raise ClauseError('pre() outside a loop invariant')
+            f = self.frame
+            if name in f.scope:
+                did = f.scope[name]
+                d = e.tu.decl_by_id[did]
+                ct = e.tu.ctype(d['type'])
+                if did in f.cells:
+                    r = f.cells[did]
+                    return self._wrap(self.pre_state.mem[r.id], ct) if r.kind == 'cell' else Ptr(r)
+                if did in self.pre_state.env:
+                    return self._wrap(self.pre_state.env[did], ct)
+            old = False
         if name == 'result' and self.result is not None:
             return self.result
         if name in self.names:
@@ -440,6 +455,10 @@ class ClauseCtx:
         return a.off == b.off
 
     def _mem(self, old):
+        if old == 'pre':
+            if self.pre_state is None:
+                raise ClauseError('pre() outside a loop invariant')
+            return self.pre_state.mem
         if old:
             if self.old_state is None:
                 raise ClauseError('no old state')
